@@ -27,6 +27,7 @@ inductive Op where
   | reclaim
   | ls
   | trk (name : Nat)
+  | trks
   deriving Repr
 
 def withInst (p : Proc) (f : Inst → Proc × Inst × Out) : Proc × Out :=
@@ -60,6 +61,9 @@ def step (c : Cfg) (p : Proc) : Op → Proc × Out
     let (p', victims) := reclaim p
     (p', .names (victims.filterMap fun k => (p.files[k]?).map (·.name)))
   | .ls => (p, .names ((p.files.filter fun fs => fs.present && fs.dir == 0).map (·.name)))
+  | .trks =>
+    (p, .trks ((((List.range p.files.length).zip p.files).filter fun (_, fs) => fs.present && fs.dir == 0).map
+      fun (k, fs) => (fs.name, p.trk.files.get? k)))
   | .trk name =>
     match (List.range p.files.length).find? (fun k => match p.files[k]? with
         | some fs => fs.present && fs.dir == 0 && fs.name == name
